@@ -88,13 +88,18 @@ void harness(void)
 		V_CHECK("detach: the old buffer is released exactly when it was moved", h_bad_free == 0 && h_frees == (in_refs > 1 ? 0 : 1) && h_used1 && h_used0 == (in_refs > 1));
 	} else {
 		V_CHECK("detach: refusal leaves the buffer, its holders and its elements untouched", bd->_ref._val == in_refs && b->_used == in_used && g_finis == 0);
-		V_CHECK("detach: refused only for a reason (no-copy content, failing constructor, element size)", (in_refs > 1 && (in_flags & MPT_ENUM(BufferNoCopy)) && in_used) || (in_typed && g_init_fails && in_refs > 1 && nel > 0));
+		V_CHECK("detach: refused only for a reason (no-copy content, failing constructor, element size)", (in_refs > 1 && (in_flags & MPT_ENUM(BufferNoCopy)) && in_used) || (in_typed && g_init_fails && in_refs > 1 && nel > 0) || (in_refs > 1 && in_used > DETACH_LEN));
 		V_CHECK("detach: a refused detach releases what it allocated and nothing else", h_bad_free == 0 && h_used0 && !h_used1);
 	}
 	if (n == b) V_CHECK("detach(in place): nothing allocated or released", h_frees == 0 && h_used0 && !h_used1);
+#ifndef COVER_NOFIT
 	V_COVER("shared typed buffer copied", n && n != b && in_refs > 1 && in_typed && nel >= 2);
+#endif
 	V_COVER("unique buffer moved", n && n != b && in_refs == 1);
 	V_COVER("in place or moved", n == b || (n && in_refs == 1));
 	V_COVER("refused", !n);
+#ifdef COVER_NOFIT
+	V_COVER("shared content that does not fit the requested size is refused", !n && in_refs > 1 && !(in_flags & MPT_ENUM(BufferNoCopy)) && !g_init_fails);
+#endif
 	V_CANARY();
 }
